@@ -47,6 +47,10 @@ type concCase struct {
 	Via     string   `json:"via"` // rec | icp
 	Threads [][]cseg `json:"threads"`
 	Reader  bool     `json:"reader"` // a goroutine reads the statistics while the others run
+	// every goroutine makes its calls in this many slices and waits for the others between slices (0 = one
+	// slice): the goroutines are re-aligned that often, so that on a loaded machine the calls of different
+	// goroutines still meet; which interleaving results is the scheduler's choice (the property allows all)
+	Rounds int `json:"rounds"`
 	Obs     []obs    `json:"obs"`    // those reads (thinned, in order), then the read after the join
 }
 
@@ -206,10 +210,10 @@ func runConc(c concCase) concCase {
 	var ready int32
 	line := func() {
 		atomic.AddInt32(&ready, 1)
-		for atomic.LoadInt32(&ready) < parties {
-			runtime.Gosched()
-		}
+		spinUntil(func() bool { return atomic.LoadInt32(&ready) >= parties })
 	}
+	rounds := max(c.Rounds, 1)
+	bar := &barrier{n: int32(len(scripts))} //nolint:gosec
 	var workers, reader sync.WaitGroup
 	var stop atomic.Bool
 	var reads []obs
@@ -233,11 +237,24 @@ func runConc(c concCase) concCase {
 		workers.Add(1)
 		go func(script []prepared) {
 			defer workers.Done()
+			total := 0
+			for _, p := range script {
+				total += p.n
+			}
 			line()
+			done, slice := 0, 1
 			for _, p := range script {
 				for k := 0; k < p.n; k++ {
+					for slice < rounds && done >= slice*total/rounds {
+						bar.wait()
+						slice++
+					}
 					p.call(k)
+					done++
 				}
+			}
+			for ; slice < rounds; slice++ {
+				bar.wait()
 			}
 		}(scripts[i])
 	}
@@ -258,6 +275,34 @@ func runConc(c concCase) concCase {
 	out.Obs = append(out.Obs, final)
 
 	return out
+}
+
+// barrier: a reusable meeting point of n goroutines
+type barrier struct {
+	n, count, gen int32
+}
+
+func (b *barrier) wait() {
+	g := atomic.LoadInt32(&b.gen)
+	if atomic.AddInt32(&b.count, 1) == b.n {
+		atomic.StoreInt32(&b.count, 0)
+		atomic.AddInt32(&b.gen, 1)
+
+		return
+	}
+	spinUntil(func() bool { return atomic.LoadInt32(&b.gen) != g })
+}
+
+// spinUntil waits WITHOUT yielding the processor for about a millisecond, and only then starts yielding.
+// Goroutines that yield while they wait are happily kept on one processor by the Go scheduler when the
+// work between two waits is short (tens of microseconds): they then take turns and never run at the same
+// time. A goroutine that keeps its processor while it waits forces the others onto processors of their own.
+func spinUntil(cond func() bool) {
+	for i := 0; !cond(); i++ {
+		if i > 2000000 {
+			runtime.Gosched()
+		}
+	}
 }
 
 func (c concCase) toCase(buckets []string) cq.Case {
@@ -300,17 +345,17 @@ func (c concCase) calls() int {
 
 // ---- generator ----
 
-// bigCompound: a compound of 6-24 packets (the walk of an incoming compound is the widest window
+// bigCompound: a compound of 6-18 packets (the walk of an incoming compound is the widest window
 // of the recorder's critical section), packets for the stream and for others mixed as in rtcpEv
 func (g *gen) bigCompound(incoming bool) ev {
 	e := g.rtcpEv(incoming)
-	want := 6 + g.r.Intn(19)
+	want := 6 + g.r.Intn(13)
 	for len(e.Pkts) < want {
 		more := g.rtcpEv(incoming)
 		e.Pkts = append(e.Pkts, more.Pkts...)
 	}
-	if len(e.Pkts) > 24 {
-		e.Pkts = e.Pkts[:24]
+	if len(e.Pkts) > 18 {
+		e.Pkts = e.Pkts[:18]
 	}
 	// make sure something in it counts for the stream
 	fb := []string{"nack", "pli", "fir"}[g.r.Intn(3)]
@@ -345,14 +390,18 @@ func (g *gen) concThread(kind string, ts int64) []cseg {
 	var th []cseg
 	switch kind {
 	case "inrtp", "outrtp":
-		for left := 1500 + g.r.Intn(3500); left > 0; {
+		total := 1500 + g.r.Intn(2500)
+		if kind == "outrtp" {
+			total = 3000 + g.r.Intn(5000)
+		}
+		for left := total; left > 0; {
 			n := min(left, 400+g.r.Intn(3000))
 			th = append(th, one(kind, n))
 			left -= n
 		}
 	case "inrtcp", "outrtcp":
-		for left := 250 + g.r.Intn(350); left > 0; {
-			n := min(left, 80+g.r.Intn(300))
+		for left := 150 + g.r.Intn(250); left > 0; {
+			n := min(left, 60+g.r.Intn(250))
 			th = append(th, one(kind, n))
 			left -= n
 		}
@@ -361,7 +410,7 @@ func (g *gen) concThread(kind string, ts int64) []cseg {
 			k := []string{"inrtp", "outrtp", "inrtcp", "outrtcp"}[g.r.Intn(4)]
 			n := 1 + g.r.Intn(120)
 			if k == "inrtcp" || k == "outrtcp" {
-				n = 1 + g.r.Intn(40)
+				n = 1 + g.r.Intn(25)
 			}
 			th = append(th, one(k, n))
 		}
@@ -389,7 +438,7 @@ var concShapes = [][]string{
 func genConc(r *rand.Rand, i int) (concCase, []string) {
 	g := newGen(r)
 	shape := concShapes[i%len(concShapes)]
-	c := concCase{SSRC: g.s, Rate: rates[r.Intn(len(rates))], Via: "rec", Reader: i%3 != 2}
+	c := concCase{SSRC: g.s, Rate: rates[r.Intn(len(rates))], Via: "rec", Reader: i%3 != 2, Rounds: []int{4, 8, 16}[r.Intn(3)]}
 	if (i/len(concShapes))%2 == 1 || i%5 == 4 {
 		c.Via = "icp"
 	}
